@@ -211,6 +211,27 @@ pub fn gen_cfg(t: &mut Tape, name: &str, wild: bool) -> (G, CfgFeatures) {
         }
         rules.push((names[k].clone(), body));
     }
+    // two hidden unit rules over the same visible rule, used behind a common prefix and told apart by the next token
+    // only (`U _ua x | U _ub y` with `_ua -> rJ`, `_ub -> rJ`): exercises unit-reduction elimination
+    if n_rules >= 2 && letters.len() >= 2 && t.pct(30) {
+        let j = 1 + t.below(n_rules - 1);
+        if !names[j].starts_with('_') {
+            rules.push(("_ua".to_string(), R::Sym(names[j].clone())));
+            rules.push(("_ub".to_string(), R::Sym(names[j].clone())));
+            let extra1 = R::Seq(vec![R::Str("U".into()), R::Sym("_ua".into()), R::Str(letters[0].clone())]);
+            let extra2 = R::Seq(vec![R::Str("U".into()), R::Sym("_ub".into()), R::Str(letters[1].clone())]);
+            let start = std::mem::replace(&mut rules[0].1, R::Str(String::new()));
+            rules[0].1 = match start {
+                R::Choice(mut v) => {
+                    v.push(extra1);
+                    v.push(extra2);
+                    R::Choice(v)
+                }
+                other => R::Choice(vec![other, extra1, extra2]),
+            };
+            feats.hidden = true;
+        }
+    }
     // inline some non-start, non-hidden rules that are referenced - never a rule that can reach itself
     // (the generator expands inlined rules textually and does not terminate on recursive ones)
     fn refs(r: &R, out: &mut Vec<String>) {
